@@ -105,6 +105,9 @@ def evaluate(prop, cases):
     items = []
     idx = []
     for i, (c, r) in enumerate(zip(cases, impl)):
+        if r == "SKIPPED-AFTER-ABORTS":
+            recs.append({"case": c, "impl": r, "oracle": None, "expected": None, "mismatch": False, "model": None, "overflow": False})
+            continue
         why = prop.oracle(c, r)
         exp = prop.expected(c, r) if prop.model_available else None
         expr = None
